@@ -193,13 +193,24 @@ class IotaPlugin(PrimitiveLeafPlugin):
         if dtype not in _SUPPORTED_IOTA_DTYPES:
             raise TypeError(f"Unsupported dtype for lax.iota: {dtype}")
         target_dtype = numpy_dtype_to_ir(dtype)
+        dim_extent = shape[dimension]
+        # A float16 / bfloat16 Range counts and steps in that type: it is exact
+        # only while every index up to the extent is representable (2**11 for
+        # float16, 2**8 for bfloat16).  iota(float16, 2051) would otherwise store
+        # the limit as 2052.  Larger or unknown extents take the INT64 Range + Cast.
+        exact_extent = (
+            isinstance(dim_extent, (int, np.integer))
+            and int(dim_extent) <= 2 ** (int(np.finfo(dtype).nmant) + 1)
+            if np.issubdtype(dtype, np.floating)
+            else True
+        )
         use_native_range_dtype = (
             int(getattr(builder, "opset", 0) or 0) >= 27
             and dtype in _OPSET27_NATIVE_RANGE_DTYPES
+            and exact_extent
         )
         range_dtype = target_dtype if use_native_range_dtype else ir.DataType.INT64
 
-        dim_extent = shape[dimension]
         if use_native_range_dtype and isinstance(dim_extent, (int, np.integer)):
             limit = _const_scalar_of_dtype(ctx, int(dim_extent), dtype)
         else:
